@@ -21,7 +21,7 @@ def jobs_for(tier, seed):
     # shortcut paths and rule-directed shapes (W = 2 and 8)
     J += [{"gen": "short", "seed": 7, "part": k, "nparts": 3, "exact": True} for k in range(3)]
     if tier == "quick":
-        J += [{"gen": "dec", "W": 2, "depth": 2, "part": k, "nparts": 8, "sample": 96, "seed": seed} for k in range(8)]
+        J += [{"gen": "dec", "W": 2, "depth": 2, "part": k, "nparts": 8, "sample": 64, "seed": seed} for k in range(8)]
         J += [{"gen": "dec", "W": 2, "depth": 1, "simp": True, "part": 0, "nparts": 1, "sample": 40, "seed": seed},
               {"gen": "short", "simp": True, "seed": 7, "part": 0, "nparts": 1, "sample": 6}]
         J += [{"gen": "solver", "seed": seed, "n": 40}]
@@ -60,6 +60,38 @@ def _closed(t):
     return all(x[0] in ("BVV", "BoolV") for x in _nodes(t) if not x[3])
 
 
+UTAGS = {"UA", "SA", "SimplificationAvoidanceAnnotation", "SI", "REG"}
+RTAGS = {"RA", "RT", "RI"}
+
+
+def _img(a):
+    return ["RI", a[1]] if a[0] == "RT" else a
+
+
+def _damage(ev):
+    """(arg nodes that carry a non-eliminatable, non-relocatable annotation and do not survive in r,
+        relocatable annotations of the args that are not on top of r) -- the same definitions as TraceAnnot.tla,
+    used here ONLY to decide whether a failure reported by TLC lies inside the operand class of a known finding"""
+    an = [n for a in ev["args"] for n in _nodes(a)]
+    rn = _nodes(ev["r"])
+    top = {json.dumps(x) for x in ev["r"][4]}
+
+    def survives(n):
+        return any(_core(m) == _core(n) and _anns(n) <= _anns(m) for m in rn)
+
+    removed = [n for n in an if any(x[0] in UTAGS for x in n[4]) and not survives(n)]
+    lost = [x for n in an for x in n[4] if x[0] in RTAGS and json.dumps(x) not in top and json.dumps(_img(x)) not in top]
+    return removed, lost
+
+
+def _within(ev, allowed):
+    """all the damage is confined to the sub-expressions `allowed` (the ones the code path discards)"""
+    keys = {json.dumps(n) for n in allowed}
+    tops = {json.dumps(x) for n in allowed for x in n[4]}
+    removed, lost = _damage(ev)
+    return all(json.dumps(n) in keys for n in removed) and all(json.dumps(x) in tops for x in lost)
+
+
 def pred_if_const_cond(ev):
     """If(<variable-free condition>, a, b): bool.py decides the condition with is_true/is_false (the concrete backend
     ignores annotations) and returns the selected branch with the condition's own annotations appended"""
@@ -69,7 +101,10 @@ def pred_if_const_cond(ev):
     if not _closed(c):
         return False
     r = ev["r"]
-    return any(_core(r) == _core(sel) and _anns(r) == _anns(sel) | _anns(c) for sel in (a, b))
+    for sel, other in ((a, b), (b, a)):
+        if _core(r) == _core(sel) and _anns(r) == _anns(sel) | _anns(c) and _within(ev, _nodes(c) + _nodes(other)):
+            return True
+    return False
 
 
 def pred_if_same_branches(ev):
@@ -77,34 +112,57 @@ def pred_if_same_branches(ev):
     if ev["k"] != "op" or ev["w"][0] != "If":
         return False
     c, a, b = ev["args"]
-    return not _closed(c) and a == b and ev["r"] == a
+    return not _closed(c) and a == b and ev["r"] == a and _within(ev, _nodes(c))
 
 
 def pred_if_nested_cond(ev):
-    """If(c, If(c', x, y), b) / If(c, a, If(c', x, y)) with c' = c or Not(c): bool.py re-issues If() on the pieces"""
+    """If(c, If(c', x, y), b) / If(c, a, If(c', x, y)) with c' = c or Not(c): bool.py re-issues If() on the pieces;
+    discarded: the inner If node, its condition, and the inner branch that cannot be reached"""
     if ev["k"] != "op" or ev["w"][0] != "If":
         return False
     c, a, b = ev["args"]
     if _closed(c):
         return False
 
-    def rel(inner):
-        ic = inner[3][0]
-        return ic == c or (ic[0] == "Not" and ic[3][0] == c and not ic[4]) or (c[0] == "Not" and c[3][0] == ic and not c[4])
+    def rel(ic):
+        if ic == c:
+            return "same"
+        if (ic[0] == "Not" and ic[3][0] == c and not ic[4]) or (c[0] == "Not" and c[3][0] == ic and not c[4]):
+            return "neg"
+        return None
 
-    return (a[0] == "If" and rel(a)) or (b[0] == "If" and rel(b))
+    allowed = []
+    for inner, pos in ((a, 1), (b, 2)):
+        if inner[0] != "If":
+            continue
+        k = rel(inner[3][0])
+        if k is None:
+            continue
+        # then-position keeps the inner then-branch when the conditions agree, the inner else-branch when negated
+        keep = (1 if k == "same" else 2) if pos == 1 else (2 if k == "same" else 1)
+        drop = 3 - keep
+        allowed += [inner] + _nodes(inner[3][0]) + _nodes(inner[3][drop])
+        break           # bool.py takes the first applicable shape
+    return bool(allowed) and _within(ev, allowed)
 
 
 def pred_extract_concat_part(ev):
     """Extract(hi, lo, Concat(..)) selecting exactly one whole part: extract_simplifier returns (part, True), i.e. claims
-    to have handled the annotations and by-passes _handle_annotations"""
+    to have handled the annotations and by-passes _handle_annotations; discarded: the Concat node and the other parts"""
     if ev["k"] != "op" or ev["w"][0] != "Extract":
         return False
     v = ev["args"][0]
     if v[0] == "ZeroExt":       # rewritten to Concat(BVV(0, n), x) first
         n = v[2][0]
-        return ev["r"] == v[3][0] or ev["r"] == ["BVV", "", [0] * n, [], []]
-    return v[0] == "Concat" and any(ev["r"] == p for p in v[3])
+        if ev["r"] == v[3][0]:
+            return _within(ev, [v])
+        return ev["r"] == ["BVV", "", [0] * n, [], []] and _within(ev, _nodes(v))
+    if v[0] != "Concat":
+        return False
+    for i, p in enumerate(v[3]):
+        if ev["r"] == p:
+            return _within(ev, [v] + [n for j, q in enumerate(v[3]) if j != i for n in _nodes(q)])
+    return False
 
 
 PREDICATES = {"if-const-cond": pred_if_const_cond, "if-same-branches": pred_if_same_branches,
@@ -151,11 +209,33 @@ def root_cause(ev, clause):
     return ev["frontend"] + ":" + clause
 
 
+def selftest(bad, st):
+    """vacuity guard: TLC must accept the genuine self-test events and reject each copy in which one recorded field was
+    corrupted, with the expected clause (only flagged events come back from the pipeline)"""
+    n = 0
+    flagged = {}
+    for ev, c in bad:
+        if c in VERDICT:
+            flagged.setdefault(ev["ix"], (ev, set()))[1].add(c)
+    for ix, (ev, cs) in flagged.items():
+        if ev["expect"] == "":
+            raise C.MachineryError(f"validator self-test: genuine event rejected {cs}: {json.dumps(ev)[:600]}")
+        if ev["expect"] not in cs:
+            raise C.MachineryError(f"validator self-test: corrupted event rejected with {cs}, expected {ev['expect']}")
+        n += 1
+    if n != st["events"] // 2:
+        raise C.MachineryError(f"validator self-test: {n} of {st['events'] // 2} corrupted events were rejected")
+    return n
+
+
 def check(pid, tier, regen=False):
     seed = C.seed()
     R = C.Result(pid, "exploration", tier)
-    jobs = jobs_for(tier, seed)
+    jobs = jobs_for(tier, seed) + [{"gen": "selftest"}]
     bad, stats = C.pipeline("w_annot", jobs, "TraceAnnot.tla", ttimeout=1500)
+    n_selftest = selftest([(ev, c) for j, ev, c, _ in bad if j == len(jobs) - 1], stats[-1])
+    bad = [b for b in bad if b[0] != len(jobs) - 1]
+    stats = stats[:-1]
     st = C.merge_stats(stats)
     exact = C.load_set(f"{pid}-exact.txt")
     findings = load_findings(pid)
@@ -216,9 +296,10 @@ def check(pid, tier, regen=False):
         "failing_known_exact": n_exact,
         "failing_known_by_predicate": n_pred,
         "informational_clauses": info,
+        "validator_selftest_corrupted_events_rejected": n_selftest,
         "exhaustive": False,
         "exhaustive_scopes": "W=2 depth 1: all decorated trees; shortcut/rule list at W=2,8: all decorated trees; "
-                             "W=2 depth 2: seeded 1/%d sample of the base trees, all decorations" % (96 if tier == "quick" else 4),
+                             "W=2 depth 2: seeded 1/%d sample of the base trees, all decorations" % (64 if tier == "quick" else 4),
         "tlc_module": "TraceAnnot.tla",
     }
     R.assumptions = ["TLC evaluates spec/TraceAnnot.tla correctly",
